@@ -489,7 +489,9 @@ PROPS['C11']['ties'] = [(SV + 'GetSnapshot', ['Tcs.serverSrc_getSnapshot'], ['se
 # the clap declarations and the wiring of main
 PROPS['C17']['ties'] = [('Tcs.Proofs.CliSrcTie', ['Tcs.cliSrc_args', 'Tcs.cliSrc_wiring', 'Tcs.cliSrc_resolve'], ['cli:args', 'cli:wiring']),
                         # the wiring map INTERPRETED: every resolved value reaches the constructor parameter the model assumes (Proofs/CliWire.lean)
-                        ('Tcs.Proofs.CliWire', ['Tcs.cliSrc_wire'], ['cli:wiring'])]
+                        ('Tcs.Proofs.CliWire', ['Tcs.cliSrc_wire'], ['cli:wiring']),
+                        # both halves composed: flags + environment -> what main constructs, source = model (Proofs/CliSrcAll.lean)
+                        ('Tcs.Proofs.CliSrcAll', ['Tcs.cliSrc_main', 'Tcs.cliSrc_main_some', 'Tcs.cliSrc_main_none'], ['cli:args', 'cli:wiring'])]
 # the HTTP handlers of server/src/api/*.rs, translated statement by statement (tools/handlers2lean.py)
 H_ = 'Tcs.Proofs.HandlerTie.'
 def _add_ties(pid, ties):
